@@ -262,6 +262,22 @@ pub fn exec_op(ctx: &StoreCtx, line: &str) -> String {
                     Err(_) => "err".into(),
                 }
             }
+            "vio" => {
+                // `StorageValueIO` (the `Read + Seek` view of one value that the zip adapter reads through): seek, then ONE `read`
+                // into a buffer that may reach beyond the value - a short read or an error, never a panic
+                use std::io::{Read, Seek, SeekFrom};
+                match s.size_key(&key("k")) {
+                    Ok(Some(n)) if n > 0 => {
+                        let mut io = zarrs::storage::StorageValueIO::new(s.clone(), key("k"), n);
+                        let pos: u64 = m["pos"].parse().unwrap(); let len: usize = m["len"].parse().unwrap();
+                        let mut buf = vec![0u8; len];
+                        match io.seek(SeekFrom::Start(pos)).and_then(|_| io.read(&mut buf)) { Ok(k) if k <= len => format!("some {}", hex(&buf[..k])), Ok(_) => "overlong".into(), Err(_) => "err".into() }
+                    }
+                    // no value to view (absent, empty, or no size): the request is the plain ranged get
+                    _ => match s.get_partial_values_key(&key("k"), &[ByteRange::FromStart(m["pos"].parse().unwrap(), Some(m["len"].parse().unwrap()))]) {
+                        Ok(Some(bs)) => format!("some {}", bs.iter().map(|b| hex(b)).collect::<Vec<_>>().join(";")), Ok(None) => "none".into(), Err(_) => "err".into() },
+                }
+            }
             "size" => {
                 let r = match &zv { Some(z) => z.size_key(&key("k")), None => s.size_key(&key("k")) };
                 match r { Ok(Some(n)) => format!("some {}", n), Ok(None) => "none".into(), Err(_) => "err".into() }
@@ -438,6 +454,10 @@ pub fn gen_case_univ(rng: &mut Rng, kind: &str, nops: usize, keys: &[&str], pref
                     parts.push(format!("{}@{}", kk, r));
                 }
                 if parts.is_empty() { format!("c08 op get k={}", k) } else { format!("c08 op getpm kr={}", parts.join(";")) }
+            }
+            10 if cur > 0 && rng.chance(1, 3) => {
+                let pos = rng.below(cur + 1);
+                format!("c08 op vio k={} pos={} len={}", k, pos, rng.range(1, cur - pos + 3))
             }
             9 | 10 | 11 => {
                 let n = rng.range(1, 3);
